@@ -111,11 +111,23 @@ def stride_nway_specs(rnd):
     """Specs that push an n-way step through a strided follower (the F3
     shape) and halos through the printer."""
     from ..gen import affine as GA
-    spec, ext, info = GA.gen_affine(rnd, rnd.choice(["S2", "S3", "S4"]))
+    strat = rnd.choice(["S2", "S3", "S4", "S7", "S7"])
+    spec, ext, info = GA.gen_affine(rnd, strat)
     parts = (spec.partitioning or {}).get("O") or {}
-    for r in list(parts):
-        if parts[r] and not parts[r][0].startswith("follow"):
-            parts[r] = ["nway_shape(%d)" % rnd.randint(1, 5)] + parts[r][1:]
+    if strat != "S7" or rnd.random() < 0.5:
+        for r in list(parts):
+            if parts[r] and not parts[r][0].startswith(("follow", "uniform_occ")):
+                parts[r] = ["nway_shape(%d)" % rnd.randint(1, 5)] + parts[r][1:]
+    if strat == "S7":
+        # any loop order the compiler accepts will do: the text is only compared with its tree
+        dims = info["dims"][0]
+        n = dims["nlev"]
+        wl = [dims["w"] + str(j) for j in range(n, -1, -1)]
+        lo = rnd.choice([wl + [dims["s"]], [dims["q"] + str(j) for j in range(n, -1, -1)] +
+                         [dims["s"]]])
+        rest = [r for r in spec.loop_order["O"] if r[0] not in (dims["w"][0], dims["q"][0]) and
+                r != dims["s"]]
+        spec.loop_order = {"O": rest + lo}
     return spec, ext
 
 
